@@ -9,7 +9,7 @@ from ..cfg import NORMAL, Node, handler_classes
 from ..core import Ctx
 from ..flow import ALL, find_path, names_in
 from ..model import AnalysisError, FunctionInfo, dotted, norm_text
-from .common import code_branches, resolve_value, effective_compare, facts_at, edge_target, handler_exits, handler_nodes, in_handler, kwarg, reachable_from
+from .common import code_branches, str_consts, resolve_value, effective_compare, facts_at, edge_target, handler_exits, handler_nodes, in_handler, kwarg, reachable_from
 
 EXPLANATION = (
     "Static cross-check of the sibling StorageBackend implementations: (R1) both override every abstract method with "
@@ -67,7 +67,7 @@ def r8_work(ctx: Ctx, rid: str = "C20.R8") -> None:
                     if ci is base:
                         raise AnalysisError(f"{cname}.{name} vanished")
                     continue
-                scopes = [m] + list(m.nested.values())
+                scopes = op_scopes(ctx, m)
                 hits = [(f, n) for f in scopes for n in ctx.cfg(f).calls() if n.id in ctx.cfg(f).reachable() and n.callee is not None
                         and n.callee.kind == "prim" and n.callee.name in prims]
                 ok = bool(hits)
@@ -94,8 +94,22 @@ def r8_work(ctx: Ctx, rid: str = "C20.R8") -> None:
             if lf is None:
                 continue
             n_keep = 0
-            for f in [lf] + list(lf.nested.values()):
+            for f in op_scopes(ctx, lf):
                 g = ctx.cfg(f)
+                # generator form: each listed object is yielded (the caller materialises the generator)
+                for yn in [x for x in ast.walk(f.node) if isinstance(x, ast.Yield)]:
+                    host = next((n for n in g.nodes if n.kind == "stmt" and n.ast is not None and any(y is yn for y in ast.walk(n.ast))
+                                 and any(fr.kind == "loop" for fr in n.frames)), None)
+                    if host is None:
+                        continue
+                    inner = [fr.node for fr in host.frames if fr.kind == "loop"][-1]
+                    lp = next(n for n in g.nodes if n.kind == "loop" and n.ast is inner)
+                    body = edge_target(g, lp, "true")
+                    w = find_path(g, body, [lp.id], avoid=[host.id], labels=NORMAL) if body is not None and body != host.id else None
+                    n_keep += 1
+                    ctx.ob(rid, f, "listing keeps every entry", host, w is None, "every listed object is yielded" if w is None else
+                           "an entry can be skipped: recovery and the collector act on a short listing",
+                           witness=ctx.path_witness(f, w), text=f"{ci.name}.list_files")
                 apps = [n for n in g.calls() if isinstance(n.ast, ast.Call) and isinstance(n.ast.func, ast.Attribute)
                         and n.ast.func.attr in ("append", "extend") and any(fr.kind == "loop" for fr in n.frames)
                         and not (n.ast.func.attr == "extend" and n.ast.args and isinstance(n.ast.args[0], (ast.GeneratorExp, ast.ListComp)))]
@@ -117,7 +131,7 @@ def r8_work(ctx: Ctx, rid: str = "C20.R8") -> None:
                     inner = [fr.node for fr in a.frames if fr.kind == "loop"][-1]
                     lp = next(n for n in g.nodes if n.kind == "loop" and n.ast is inner)
                     body = edge_target(g, lp, "true")
-                    w = find_path(g, body, [lp.id], avoid=[a.id], labels=NORMAL) if body is not None else None
+                    w = find_path(g, body, [lp.id], avoid=[a.id], labels=NORMAL) if body is not None and body != a.id else None
                     lst = dotted(a.ast.func.value)  # type: ignore[union-attr]
                     returned = any(r.ast is not None and r.ast.value is not None and lst in names_in(r.ast.value)  # type: ignore[union-attr]
                                    for r in g.nodes if r.kind == "return")
@@ -213,7 +227,7 @@ def r10_listing_exhaustive(ctx: Ctx, rid: str = "C20.R10") -> None:
             if ci is base:
                 raise AnalysisError("S3StorageBackend.list_files vanished")
             continue
-        scopes = [lf] + list(lf.nested.values())
+        scopes = op_scopes(ctx, lf)
         manual = [(f, n) for f in scopes for n in ctx.cfg(f).calls() if n.id in ctx.cfg(f).reachable() and n.callee is not None
                   and n.callee.kind == "prim" and n.callee.name == "boto.list_objects_v2"]
         pag = [(f, n) for f in scopes for n in ctx.cfg(f).calls() if n.callee is not None and n.callee.kind == "prim"
@@ -376,12 +390,16 @@ def r12_stream_faithful(ctx: Ctx, rid: str = "C20.R12") -> None:
         if of is None:
             continue
         ok = False
-        for f in [of] + list(of.nested.values()):
+        for f in op_scopes(ctx, of):
             fg = ctx.cfg(f)
             for r in [x for x in fg.nodes if x.kind == "return" and x.id in fg.reachable() and x.ast is not None and x.ast.value is not None]:  # type: ignore[union-attr]
                 for x, _a in resolve_value(ctx, f, r.ast.value, r.id):  # type: ignore[union-attr]
                     if isinstance(x, ast.Call) and (dotted(x.func) or "").split(".")[-1] == "S3FileStream":
                         ok = True
+            # ... or the wrapper is applied by a function value handed on (`partial(self._get_object, key, lambda r: S3FileStream(r["Body"]))`)
+            for lam in [x for x in ast.walk(f.node) if isinstance(x, ast.Lambda)]:
+                if isinstance(lam.body, ast.Call) and (dotted(lam.body.func) or "").split(".")[-1] == "S3FileStream":
+                    ok = True
         ctx.ob(rid, of, "open_file wraps the body in S3FileStream", None, ok,
                "botocore's StreamingBody.__enter__ returns the RAW urllib3 stream: `with open_file(...)` readers would skip the "
                "Content-Length check and see a dropped connection as a clean end of file", text=ci.name)
@@ -452,8 +470,35 @@ def r1(ctx: Ctx) -> None:
                "same encoding (utf-8, indent=2) on both backends", text=name)
 
 
+def op_scopes(ctx: Ctx, m: FunctionInfo) -> List[FunctionInfo]:
+    """The functions that run as part of backend operation m: m itself, its local functions, and every helper introduced
+    later (not one of the functions the rules were written against) of the same module that m - or such a helper - mentions:
+    called, or handed on as a function value (`self._retried("read", key, self._get_bytes)`, `partial(self._head, key)`)."""
+    out: List[FunctionInfo] = [m]
+    i = 0
+    while i < len(out):
+        f = out[i]
+        i += 1
+        for nf in f.nested.values():
+            if nf not in out:
+                out.append(nf)
+        for x in ast.walk(f.node):
+            nm = None
+            if isinstance(x, ast.Attribute) and isinstance(x.value, ast.Name) and x.value.id in ("self", "cls"):
+                nm = x.attr
+            elif isinstance(x, ast.Name) and isinstance(x.ctx, ast.Load):
+                nm = x.id
+            if nm is None:
+                continue
+            for t in ctx.prog.functions.values():
+                if t.module is m.module and t.name == nm and t.parent is None and not isinstance(t.node, ast.Lambda) \
+                        and not ctx.prog.is_known(t) and t not in out and (t.cls is None or t.cls is m.cls or (m.cls is not None and t.cls in family(ctx, m.cls))):
+                    out.append(t)
+    return out
+
+
 def _closure_for(ctx: Ctx, m: FunctionInfo) -> List[FunctionInfo]:
-    return list(m.nested.values())
+    return [f for f in op_scopes(ctx, m) if f is not m]
 
 
 def family(ctx: Ctx, ci) -> list:  # type: ignore[no-untyped-def]
@@ -485,9 +530,9 @@ def r2(ctx: Ctx) -> None:
             if s3 is not s3_base:
                 continue  # not overridden: inherits the checked implementation
             raise AnalysisError(f"S3StorageBackend.{name} vanished")
-        ok = False
         detail = "no ClientError handler"
-        for nf in _closure_for(ctx, m):
+        verdicts: List[bool] = []
+        for nf in _closure_for(ctx, m) + [m]:
             g = ctx.cfg(nf)
             for hn in handler_nodes(ctx, nf):
                 if "ClientError" not in handler_classes(hn.ast):  # type: ignore[arg-type]
@@ -500,8 +545,30 @@ def r2(ctx: Ctx) -> None:
                     codes += sorted(cs)
                     if code in cs and mr == {"FileNotFoundError"} and "reraise" in orr and "FileNotFoundError" not in orr:
                         good_branch = (set(cs) - RESPONSE_KEYS) <= NOT_FOUND_CODES  # 403 / AccessDenied / 5xx are NOT "no such object"
-                ok = good_branch and not ex["fallthrough"] and not ex["return"] and code in codes
+                if not (set(codes) - RESPONSE_KEYS) and nf is not m and not ex["fallthrough"] and not ex["return"]:
+                    # a shared helper whose not-found code is a PARAMETER (possibly of the enclosing helper, captured by a local
+                    # function): bind it from the call in this operation
+                    top = nf
+                    while top.parent is not None:
+                        top = top.parent
+                    bound: Set[str] = set()
+                    if top is not m and not ctx.prog.is_known(top):
+                        pn = [p_.name for p_ in top.params if p_.name not in ("self", "cls")]
+                        used = {x.id for b_, _cs, _mr, _or, _mo, _oo in code_branches(ctx, nf, hn) for x in ast.walk(b_.ast) if isinstance(x, ast.Name)} & set(pn)
+                        for c_ in ast.walk(m.node):
+                            if isinstance(c_, ast.Call) and (dotted(c_.func) or "").split(".")[-1] == top.name:
+                                for up in used:
+                                    a_ = c_.args[pn.index(up)] if pn.index(up) < len(c_.args) else next((k.value for k in c_.keywords if k.arg == up), None)
+                                    bound |= str_consts(ctx, m, a_)
+                    if bound:
+                        mapping_ok = any(mr == {"FileNotFoundError"} and "reraise" in orr and "FileNotFoundError" not in orr
+                                         for _b, _cs, mr, orr, _mo, _oo in code_branches(ctx, nf, hn))
+                        verdicts.append(mapping_ok and code in bound and bound <= NOT_FOUND_CODES)
+                        detail = f"codes {sorted(bound)} (bound at the call of {top.name}); raises {raised}"
+                    continue  # otherwise: judged where it is analysed in place with the literal
+                verdicts.append(good_branch and not ex["fallthrough"] and not ex["return"] and code in codes)
                 detail = f"codes {codes}; raises {raised}; swallow={bool(ex['fallthrough'] or ex['return'])}"
+        ok = bool(verdicts) and all(verdicts)
         if name == "get_size":
             pass
         ctx.ob("C20.R2", m, f"{name}: {code} -> FileNotFoundError, else re-raise", None, ok, detail, text=name)
@@ -511,17 +578,26 @@ def r2(ctx: Ctx) -> None:
             if s3 is s3_base:
                 raise AnalysisError("S3StorageBackend.exists vanished")
             continue
-        okx = False
         detail = ""
-        for nf in _closure_for(ctx, ex_m):
+        vx: List[bool] = []
+        for nf in _closure_for(ctx, ex_m) + [ex_m]:
             g = ctx.cfg(nf)
             for hn in handler_nodes(ctx, nf):
+                if "ClientError" not in handler_classes(hn.ast):  # type: ignore[arg-type]
+                    continue
                 exx = handler_exits(ctx, nf, hn)
-                brs = [b for b in g.nodes if b.kind == "branch" and in_handler(b, hn.ast) and "404" in b.text]  # type: ignore[arg-type]
+                brs = [b for b in g.nodes if b.kind == "branch" and in_handler(b, hn.ast) and "404" in str_consts(ctx, nf, b.ast, b.id)]  # type: ignore[arg-type]
                 rer = any(r.raised == "reraise" for r in exx["raise"])
                 absent = sorted({c for _b, cs, _mr, _or, _mo, _oo in code_branches(ctx, nf, hn) for c in cs} - RESPONSE_KEYS)
-                okx = bool(brs) and rer and not exx["return"] and set(absent) <= NOT_FOUND_CODES
+                if not brs:
+                    # a handler that does not decide absence: it must not swallow
+                    vx.append(not (exx["return"] or exx["fallthrough"]))
+                    continue
+                # the 404 side may answer False by returning; every other code re-raises
+                bad_returns = [r for r in exx["return"] if not (isinstance(r.ast.value, ast.Constant) and r.ast.value.value is False)]  # type: ignore[union-attr]
+                vx.append(rer and not bad_returns and set(absent) <= NOT_FOUND_CODES)
                 detail = f"branch on 404: {bool(brs)}; codes read as 'absent': {absent}; other errors re-raised: {rer}"
+        okx = bool(vx) and all(vx)
         ctx.ob("C20.R2", ex_m, "exists: 404 -> False, everything else raises", None, okx, detail, text="exists")
         osk = s3.methods.get("open_seekable")
         ok = osk is not None and bool(ctx.calls(osk, name="get_size"))
@@ -538,32 +614,129 @@ def r2(ctx: Ctx) -> None:
         ctx.ob("C20.R2", osk or ex_m, "open_seekable learns the size through get_size (not-found mapping included)", None, ok, "", text="open_seekable")
 
 
+def _parents(tree: ast.AST) -> Dict[int, ast.AST]:
+    out: Dict[int, ast.AST] = {}
+    for p_ in ast.walk(tree):
+        for c in ast.iter_child_nodes(p_):
+            out[id(c)] = p_
+    return out
+
+
+def _is_retry_call(x: ast.AST) -> bool:
+    return isinstance(x, ast.Call) and (dotted(x.func) or "").split(".")[-1] == "with_s3_retry"
+
+
 def _under_retry(ctx: Ctx, f: FunctionInfo, depth: int = 0, seen: Optional[Set[str]] = None) -> bool:
-    """Does function f only ever run inside with_s3_retry?  Either f (a closure / method) is handed to with_s3_retry as
-    its operation (directly or wrapped in functools.partial), or every call site of f lies in a function that does."""
+    """Does function f only ever run inside with_s3_retry?  Every USE of f in its module is one of: the operation handed to
+    with_s3_retry (directly, wrapped in functools.partial, or called inside a lambda / local function that is); a call from a
+    function that itself only runs under retry; an argument bound to a helper's parameter that the helper only invokes under
+    retry (`_retried(label, key, request)` -> `with_s3_retry(lambda: request(key), ...)`)."""
     seen = seen if seen is not None else set()
-    if f.qname in seen or depth > 5:
+    if f.qname in seen or depth > 6:
         return False
-    seen.add(f.qname)
-    scopes = [f.parent] if f.parent is not None else []
-    if f.cls is not None:
-        scopes += [m_ for m_ in f.cls.methods.values()] + [x for m_ in f.cls.methods.values() for x in m_.nested.values()]
-    for sc in scopes:
-        if sc is None:
+    seen = seen | {f.qname}
+    mod = f.module
+    par = ctx.__dict__.setdefault("_c20_parents", {}).get(mod.name)
+    if par is None:
+        par = _parents(mod.tree)
+        ctx.__dict__["_c20_parents"][mod.name] = par
+
+    def enclosing_fn(x: ast.AST) -> Optional[ast.AST]:
+        q = par.get(id(x))
+        while q is not None and not isinstance(q, (ast.FunctionDef, ast.AsyncFunctionDef, ast.Lambda)):
+            q = par.get(id(q))
+        return q
+
+    def fi_of(node: Optional[ast.AST]) -> Optional[FunctionInfo]:
+        return next((x for x in ctx.prog.functions.values() if x.node is node), None) if node is not None else None
+
+    def callable_under_retry(node: ast.AST, d: int) -> bool:
+        """the lambda / def `node` only runs under retry"""
+        fi = fi_of(node)
+        if fi is not None and not isinstance(node, ast.Lambda):
+            return _under_retry(ctx, fi, d + 1, seen)
+        return value_ok(node, d + 1)
+
+    def value_ok(x: ast.AST, d: int) -> bool:
+        """the function VALUE denoted by expression node x ends up only as an operation of with_s3_retry"""
+        if d > 8:
+            return False
+        q = par.get(id(x))
+        if isinstance(q, ast.Call) and x in q.args and (dotted(q.func) or "").split(".")[-1] == "partial" and q.args and q.args[0] is x:
+            return value_ok(q, d + 1)
+        if isinstance(q, ast.keyword):
+            q2 = par.get(id(q))
+            return isinstance(q2, ast.Call) and bound_param_ok(q2, None, q.arg, d)
+        if isinstance(q, ast.Call) and x in q.args:
+            if _is_retry_call(q):
+                return q.args[0] is x
+            return bound_param_ok(q, q.args.index(x), None, d)
+        if isinstance(q, ast.Assign) and len(q.targets) == 1 and isinstance(q.targets[0], ast.Name) and q.value is x:
+            # op = partial(...); ... with_s3_retry(op, ...): every later load of the local must be fine
+            fn_node = enclosing_fn(q)
+            loads = [y for y in ast.walk(fn_node) if isinstance(y, ast.Name) and y.id == q.targets[0].id and isinstance(y.ctx, ast.Load)] if fn_node is not None else []
+            return bool(loads) and all(value_ok(y, d + 1) for y in loads)
+        if isinstance(q, ast.Return):
+            # an operation FACTORY: the callable is returned, and what the factory's callers do with the result decides
+            enc = enclosing_fn(q)
+            fac = fi_of(enc)
+            if fac is None or isinstance(enc, ast.Lambda):
+                return False
+            calls = [c for c in ast.walk(mod.tree) if isinstance(c, ast.Call) and (dotted(c.func) or "").split(".")[-1] == fac.name]
+            return bool(calls) and all(value_ok(c, d + 1) for c in calls)
+        return False
+
+    def bound_param_ok(call: ast.Call, pos: Optional[int], kw: Optional[str], d: int) -> bool:
+        """the argument is bound to a parameter of a package helper that invokes it only under retry"""
+        nm = (dotted(call.func) or "").split(".")[-1]
+        targets = [t for t in ctx.prog.functions.values() if t.module is mod and t.name == nm and not isinstance(t.node, ast.Lambda)]
+        if len(targets) != 1:
+            return False
+        h = targets[0]
+        params = [p_.name for p_ in h.params if p_.name not in ("self", "cls")]
+        pname = kw if kw is not None else (params[pos] if pos is not None and pos < len(params) else None)
+        if pname is None:
+            return False
+        uses = [y for y in ast.walk(h.node) if isinstance(y, ast.Name) and y.id == pname and isinstance(y.ctx, ast.Load)]
+        if not uses:
+            return False
+        for y in uses:
+            q = par.get(id(y))
+            if isinstance(q, ast.Call) and q.func is y:
+                # invoked here: the invocation must sit in a callable that only runs under retry, or h itself does
+                enc = enclosing_fn(q)
+                if enc is h.node:
+                    if not _under_retry(ctx, h, d + 1, seen):
+                        return False
+                elif enc is None or not callable_under_retry(enc, d + 1):
+                    return False
+            elif not value_ok(y, d + 1):
+                return False
+        return True
+
+    uses_ok: List[bool] = []
+    # (a) references to f as a value / as a callee, anywhere in the module
+    for x in ast.walk(mod.tree):
+        ref = None
+        if f.parent is None and f.cls is not None and isinstance(x, ast.Attribute) and x.attr == f.name and isinstance(x.ctx, ast.Load) \
+                and isinstance(x.value, ast.Name) and x.value.id in ("self", "cls", f.cls.name):
+            ref = x
+        elif isinstance(x, ast.Name) and x.id == f.name and isinstance(x.ctx, ast.Load) and (f.parent is not None or f.cls is None):
+            enc = enclosing_fn(x)
+            if f.parent is not None and enc is not f.parent.node and fi_of(enc) is not None and fi_of(enc).parent is not f.parent:  # type: ignore[union-attr]
+                continue  # another function's local of the same name
+            ref = x
+        if ref is None:
             continue
-        for r in ctx.cfg(sc).calls():
-            if not (isinstance(r.ast, ast.Call) and r.ast.args):
-                continue
-            if not (any(t.name == "with_s3_retry" for t in ctx.eff.callees(sc, r)) or (dotted(r.ast.func) or "").endswith("with_s3_retry")):
-                continue
-            op = r.ast.args[0]
-            if isinstance(op, ast.Call) and (dotted(op.func) or "").split(".")[-1] == "partial" and op.args:
-                op = op.args[0]
-            if (isinstance(op, ast.Name) and op.id == f.name and f.parent is sc) or \
-                    (isinstance(op, ast.Attribute) and op.attr == f.name and f.cls is not None and f.parent is None):
-                return True
-    sites = ctx.eff.call_sites.get(f.qname, [])
-    return bool(sites) and all(_under_retry(ctx, caller, depth + 1, seen) for caller, _n in sites)
+        q = par.get(id(ref))
+        if isinstance(q, ast.Call) and q.func is ref:
+            enc = enclosing_fn(q)
+            if enc is f.node:
+                continue  # recursion
+            uses_ok.append(enc is not None and callable_under_retry(enc, depth + 1))
+        else:
+            uses_ok.append(value_ok(ref, depth + 1))
+    return bool(uses_ok) and all(uses_ok)
 
 
 def r3(ctx: Ctx) -> None:
@@ -596,53 +769,90 @@ def r3(ctx: Ctx) -> None:
     if not hs:
         raise AnalysisError("retryable handler vanished from retry_with_backoff")
     hn = hs[0]
-    perm = [b for b in g.nodes if b.kind == "branch" and "is_permanent_s3_error" in b.text and in_handler(b, hn.ast)]  # type: ignore[arg-type]
-    sleeps = [n for n in ctx.calls(rb, prim="time.sleep") if in_handler(n, hn.ast)]  # type: ignore[arg-type]
-    ok = False
-    for b in perm:
-        t = edge_target(g, b, "true")
-        if t is not None:
-            reach = reachable_from(g, t, NORMAL)
-            rs = [g.nodes[x] for x in reach if g.nodes[x].kind == "raise"]
-            ok = bool(rs) and all(r.raised == "reraise" for r in rs) and not any(s.id in reach for s in sleeps)
-        dom = ctx.dom(rb, ALL)
-        ok = ok and all(b.id in dom[s.id] for s in sleeps)
-    ctx.ob("C20.R3", rb, "permanent errors re-raise before any sleep", perm[0] if perm else None, ok and bool(sleeps),
-           "credentials / permissions / missing bucket surface immediately")
-    loops = [l for l in g.nodes if l.kind == "loop" and isinstance(l.ast, ast.For)]
-    rsl = ctx.slicer(rb)
-    ok = False
-    if loops:
-        it = loops[0].ast.iter  # type: ignore[union-attr]
-        if isinstance(it, ast.Call) and (dotted(it.func) or "") == "range" and it.args:
-            org = rsl.origins(it.args[-1] if len(it.args) < 3 else it.args[1], loops[0].id)
-            ok = any(nm.endswith("max_retries") for nm in org["names"])
-    ctx.ob("C20.R3", rb, "attempts are bounded by max_retries", loops[0] if loops else None, ok, "for attempt in range(self.max_retries + 1)")
-    ok = False
-    exh = []
-    for b in g.nodes:
-        if b.kind != "branch" or not in_handler(b, hn.ast) or b.id not in g.reachable():  # type: ignore[arg-type]
-            continue
-        ec = effective_compare(ctx, rb, b)
-        if ec is None or len(ec[0].ops) != 1 or not isinstance(ec[0].ops[0], (ast.Lt, ast.LtE, ast.Gt, ast.GtE)):
-            continue
-        lo_, ro_ = rsl.origins(ec[0].left, ec[1]), rsl.origins(ec[0].comparators[0], ec[1])
-        loop_l = any(g.nodes[x].kind == "loop" for x in lo_["nodes"])  # the attempt counter is the loop variable
-        loop_r = any(g.nodes[x].kind == "loop" for x in ro_["nodes"])
-        lim_r = any(nm.endswith("max_retries") for nm in ro_["names"]) and not loop_r and loop_l
-        lim_l = any(nm.endswith("max_retries") for nm in lo_["names"]) and not loop_l and loop_r
-        if lim_r == lim_l:
-            continue
-        is_lt = isinstance(ec[0].ops[0], (ast.Lt, ast.LtE))
-        # attempt < max (budget left) on the true edge  <=>  (Lt and limit right) or (Gt and limit left)
-        left_on_true = (is_lt and lim_r) or (not is_lt and lim_l)
-        exhausted = edge_target(g, b, "false" if left_on_true else "true")
-        exh.append(b)
-        if exhausted is not None:
-            reach = reachable_from(g, exhausted, NORMAL, avoid=[n.id for n in g.nodes if n.kind in ("loop", "loop_head")])
-            rs = [g.nodes[x] for x in reach if g.nodes[x].kind == "raise"]
-            ok = bool(rs) and all(r.raised == "reraise" for r in rs) and not any(s_.id in reach for s_ in sleeps)
-    ctx.ob("C20.R3", rb, "the last failure is re-raised, never swallowed", exh[0] if exh else None, ok, "retry budget exhausted -> raise")
+    from .common import explore
+    # the loop's behaviour, decided by simulating the function on "the operation keeps failing with a transient error" for
+    # max_retries = 1 and 2 (for/range, while with a counter, 0- or 1-based, helpers analysed in place - all read the same way):
+    # failure k <= max_retries sleeps and reaches the operation again, failure max_retries + 1 re-raises
+    params = {p_.name for p_ in rb.params}
+    ops = [n for n in g.calls() if isinstance(n.ast, ast.Call) and isinstance(n.ast.func, ast.Name) and n.ast.func.id in params
+           and n.id in g.reachable() and any(d == hn.id for d, l in g.succ[n.id] if l not in NORMAL)]
+    if not ops:
+        ops = [n for n in g.calls() if isinstance(n.ast, ast.Call) and isinstance(n.ast.func, ast.Name) and n.ast.func.id in params
+               and n.id in g.reachable()]
+    sleeps = [n for n in g.calls() if n.callee is not None and n.callee.kind == "prim" and n.callee.name == "time.sleep" and n.id in g.reachable()]
+    perm_calls = [n for n in g.calls() if isinstance(n.ast, ast.Call) and (dotted(n.ast.func) or "").split(".")[-1] == "is_permanent_s3_error"]
+    if not ops:
+        raise AnalysisError("retry_with_backoff: the call of the operation parameter was not found")
+    op_ids = {n.id for n in ops}
+    starts = [d for d, l in g.succ[hn.id] if l in NORMAL]
+    stops = [n.id for n in g.nodes if n.kind in ("raise", "return")] + sorted(op_ids) + [g.exit]
+    max_names = sorted({nm for nm in names_in(rb.node) if nm.endswith("max_retries")}) or ["self.max_retries"]
+
+    def kind_of(nid: int) -> str:
+        n_ = g.nodes[nid]
+        if nid in op_ids:
+            return "operation"
+        return "raise:" + str(n_.raised) if n_.kind == "raise" else n_.kind
+
+    def fail(stores: List[Dict[object, object]], env: Dict[str, object], permanent: bool) -> Tuple[Set[str], bool, List[Dict[object, object]]]:
+        ends: Set[str] = set()
+        slept_all = True
+        nxt: List[Dict[object, object]] = []
+        for st in stores:
+            st0 = {k: v for k, v in st.items() if not (isinstance(k, tuple) and k[0] == "seen")}
+            for nid, store, _asm in explore(ctx, rb, starts, env, assume={id(c.ast): permanent for c in perm_calls}, stop=stops,
+                                            watch=[s_.id for s_ in sleeps], init=st0, iterate=True):
+                k_ = kind_of(nid)
+                if any(isinstance(k, tuple) and k[0] == "undecided" for k in store):
+                    k_ += "?"
+                ends.add(k_)
+                slept = any(isinstance(k, tuple) and k[0] == "seen" for k in store)
+                if k_ == "operation":
+                    slept_all = slept_all and slept
+                    nxt.append(store)
+                elif slept and permanent:
+                    slept_all = True
+        return ends, slept_all, nxt
+
+    def simulate(max_r: int) -> Tuple[List[Tuple[Set[str], bool]], Tuple[Set[str], bool]]:
+        env: Dict[str, object] = {nm: max_r for nm in max_names}
+        first = [store for nid, store, _a in explore(ctx, rb, [g.entry], env, stop=stops, iterate=True) if nid in op_ids]
+        if not first:
+            raise AnalysisError("retry_with_backoff: no path from the entry to the operation call")
+        e_p, s_p, _ = fail(first, env, True) if perm_calls else ({"no is_permanent_s3_error test"}, True, [])
+        if perm_calls:
+            s_p = any(isinstance(k, tuple) and k[0] == "seen" for st in first for _n, store, _a2 in
+                      explore(ctx, rb, starts, env, assume={id(c.ast): True for c in perm_calls}, stop=stops,
+                              watch=[s_.id for s_ in sleeps], init=st, iterate=True) for k in store)
+        rounds: List[Tuple[Set[str], bool]] = []
+        cur = first
+        for _k in range(max_r + 3):
+            if not cur:
+                break
+            ends, slept, cur = fail(cur, env, False)
+            rounds.append((ends, slept))
+        return rounds, (e_p, s_p)
+
+    sims = {mr: simulate(mr) for mr in (1, 2)}
+    e_p, s_p = sims[1][1]
+    ctx.ob("C20.R3", rb, "permanent errors re-raise before any sleep", perm_calls[0] if perm_calls else hn, e_p == {"raise:reraise"} and not s_p,
+           f"scenario 'permanent error on the first attempt': the handler ends in {sorted(e_p)}, slept: {s_p} - credentials / "
+           "permissions / missing bucket surface immediately")
+    ok_t = all(r_[k] == ({"operation"}, True) for mr, (r_, _p) in sims.items() for k in range(min(mr, len(r_)))) \
+        and all(len(r_) > mr - 1 for mr, (r_, _p) in sims.items())
+    ctx.ob("C20.R3", rb, "a transient error with budget left sleeps and tries again", sleeps[0] if sleeps else hn, ok_t,
+           "scenario 'every attempt fails with a transient error': failures 1..max_retries end in "
+           + "; ".join(f"max_retries={mr}: {[(sorted(e_), s_) for e_, s_ in r_[:mr]]}" for mr, (r_, _p) in sims.items())
+           + " - each must sleep and reach the operation again (the whole budget is used, #39/#50)")
+    ok_b = all(len(r_) > mr and "operation" not in r_[mr][0] and "operation?" not in r_[mr][0] for mr, (r_, _p) in sims.items())
+    ctx.ob("C20.R3", rb, "attempts are bounded by max_retries", ops[0], ok_b,
+           "failure max_retries + 1 does not reach the operation again: "
+           + "; ".join(f"max_retries={mr}: {sorted(r_[mr][0]) if len(r_) > mr else 'never reached'}" for mr, (r_, _p) in sims.items()))
+    ok_x = all(len(r_) > mr and r_[mr][0] == {"raise:reraise"} for mr, (r_, _p) in sims.items())
+    ctx.ob("C20.R3", rb, "the last failure is re-raised, never swallowed", hn, ok_x,
+           "scenario 'transient error, budget exhausted': "
+           + "; ".join(f"max_retries={mr}: {sorted(r_[mr][0]) if len(r_) > mr else 'never reached'}" for mr, (r_, _p) in sims.items())
+           + " - retry budget exhausted -> raise")
     others = [h for h in handler_nodes(ctx, rb) if h is not hn]
     ok = all(not (handler_exits(ctx, rb, h)["fallthrough"] or handler_exits(ctx, rb, h)["return"] or handler_exits(ctx, rb, h)["loop"]) for h in others)
     ctx.ob("C20.R3", rb, "non-retryable classes propagate", others[0] if others else None, ok, "except Exception: raise")
@@ -652,13 +862,23 @@ def r3(ctx: Ctx) -> None:
     vals = [c.value for c in ast.walk(codes) if isinstance(c, ast.Constant)] if codes is not None else []
     rets = [n for n in ctx.cfg(ip).nodes if n.kind == "return" and n.id in ctx.cfg(ip).reachable()]
     okr = bool(rets)
+
+    def _not_member(x: ast.AST) -> Optional[bool]:
+        # scenario: the error's code is NOT in the table
+        if isinstance(x, ast.Compare) and len(x.ops) == 1 and isinstance(x.ops[0], (ast.In, ast.NotIn)) \
+                and "PERMANENT_S3_ERROR_CODES" in norm_text(x.comparators[0]):
+            return isinstance(x.ops[0], ast.NotIn)
+        return None
+
+    from .common import eval3
     for r_ in rets:
-        v = r_.ast.value  # type: ignore[union-attr]
-        if isinstance(v, ast.Constant) and v.value is False:
-            continue
-        if isinstance(v, ast.Compare) and isinstance(v.ops[0], ast.In) and "PERMANENT_S3_ERROR_CODES" in norm_text(v.comparators[0]):
-            continue
-        okr = False
+        for v, _at in resolve_value(ctx, ip, r_.ast.value, r_.id):  # type: ignore[union-attr]
+            if isinstance(v, ast.Constant) and v.value is False:
+                continue
+            # whatever else the expression tests, a code outside the table makes it False
+            if v is not None and eval3(v, _not_member) is False:
+                continue
+            okr = False
     ctx.ob("C20.R3", ip, "an error is permanent only by membership in PERMANENT_S3_ERROR_CODES", rets[-1] if rets else None, okr,
            "any broader classification (e.g. 'every 4xx') makes transient faults such as RequestTimeout/400, OperationAborted/409 or "
            "429 throttling surface after one attempt instead of being masked within the retry budget")
@@ -718,7 +938,7 @@ def r5(ctx: Ctx, rid: str = "C20.R5") -> None:
     lf = ctx.prog.cls(SB + ".S3StorageBackend").methods["list_files"]
     g = ctx.cfg(lf)
     uses = []
-    scopes = list(lf.nested.values()) + [lf]
+    scopes = [x for x in op_scopes(ctx, lf) if x is not lf] + [lf]
     for nf in scopes:
         for n in ctx.cfg(nf).calls():
             pk = kwarg(n.ast, "Prefix")
@@ -757,6 +977,22 @@ def r5(ctx: Ctx, rid: str = "C20.R5") -> None:
             # in the enclosing function: every path to the closure definition either appends '/', or passes the
             # already-terminated / empty-prefix edge of a test on the variable
             defn = [x for x in g.nodes if x.kind == "stmt" and isinstance(x.ast, ast.FunctionDef) and x.ast.name == nf.name]
+            if nf.parent is not lf and nf is not lf and var in [p_.name for p_ in nf.params]:
+                # a helper introduced later receives the prefix as a parameter: follow it to the argument list_files passes
+                pn = [p_.name for p_ in nf.params if p_.name not in ("self", "cls")]
+                site = None
+                for hostf in [lf] + list(lf.nested.values()):
+                    for c_ in ast.walk(hostf.node):
+                        if isinstance(c_, ast.Call) and (dotted(c_.func) or "").split(".")[-1] == nf.name:
+                            a_ = c_.args[pn.index(var)] if pn.index(var) < len(c_.args) else next((k.value for k in c_.keywords if k.arg == var), None)
+                            if isinstance(a_, ast.Name):
+                                site = (hostf, c_, a_.id)
+                if site is not None:
+                    hostf, c_, var = site
+                    if hostf is lf:
+                        defn = [x for x in g.nodes if x.ast is not None and x.kind in ("stmt", "call", "return") and any(y is c_ for y in ast.walk(x.ast))][:1]
+                    else:
+                        defn = [x for x in g.nodes if x.kind == "stmt" and isinstance(x.ast, ast.FunctionDef) and x.ast.name == hostf.name]
             aug = [x for x in g.nodes if x.kind == "stmt" and (
                 (isinstance(x.ast, ast.AugAssign) and isinstance(x.ast.target, ast.Name) and x.ast.target.id == var
                  and isinstance(x.ast.value, ast.Constant) and x.ast.value.value == "/")
@@ -819,6 +1055,73 @@ def _str_template(ctx: Ctx, outer: FunctionInfo, inner: FunctionInfo, e: ast.AST
     return None
 
 
+Lin = Dict[str, int]
+
+
+def _lin_add(a: Lin, b: Lin, sign: int = 1) -> Lin:
+    out = dict(a)
+    for k, v in b.items():
+        out[k] = out.get(k, 0) + sign * v
+    return {k: v for k, v in out.items() if v != 0 or k == ""}
+
+
+def _upper_bounds(ctx: Ctx, f: FunctionInfo, e: Optional[ast.AST], at: int, depth: int = 0) -> List[Lin]:
+    """Linear forms (symbol -> coefficient, '' -> constant) each of which is >= the integer expression e: exact for
+    + / - / constants / attributes / single-definition locals / results of helpers analysed in place, one alternative per
+    argument for min(...).  [] when nothing can be said."""
+    if e is None or depth > 10:
+        return []
+    if isinstance(e, ast.Constant) and isinstance(e.value, int) and not isinstance(e.value, bool):
+        return [{"": e.value}]
+    if isinstance(e, ast.BinOp) and isinstance(e.op, (ast.Add, ast.Sub)):
+        ls = _upper_bounds(ctx, f, e.left, at, depth + 1)
+        if isinstance(e.op, ast.Add):
+            rs = _upper_bounds(ctx, f, e.right, at, depth + 1)
+            return [_lin_add(a, b) for a in ls for b in rs][:16]
+        rx = _exact(ctx, f, e.right, at, depth + 1)
+        return [_lin_add(a, rx, -1) for a in ls] if rx is not None else []
+    if isinstance(e, ast.Call) and isinstance(e.func, ast.Name) and e.func.id == "min" and e.args and not e.keywords:
+        return [u for a in e.args for u in _upper_bounds(ctx, f, a, at, depth + 1)][:16]
+    if isinstance(e, (ast.Name, ast.Call)):
+        srcs = resolve_value(ctx, f, e, at)
+        if len(srcs) == 1 and srcs[0][0] is not None and srcs[0][0] is not e:
+            return _upper_bounds(ctx, f, srcs[0][0], srcs[0][1], depth + 1)
+    if isinstance(e, (ast.Name, ast.Attribute)):
+        return [{norm_text(e): 1, "": 0}]
+    return []
+
+
+def _exact(ctx: Ctx, f: FunctionInfo, e: Optional[ast.AST], at: int, depth: int = 0) -> Optional[Lin]:
+    """The linear form equal to e (no min / max / opaque call inside), or None."""
+    if e is None or any(isinstance(x, ast.Call) and isinstance(x.func, ast.Name) and x.func.id in ("min", "max") for x in ast.walk(e)):
+        srcs = resolve_value(ctx, f, e, at) if isinstance(e, (ast.Name,)) else []
+        if not (len(srcs) == 1 and srcs[0][0] is not e):
+            return None
+    ub = _upper_bounds(ctx, f, e, at, depth)
+    return ub[0] if len(ub) == 1 else None
+
+
+def _positive_fact(ctx: Ctx, f: FunctionInfo, pol: str, e: ast.AST, at: int) -> Optional[Lin]:
+    """The linear form X such that the fact says X > 0 (integers): a < b -> b - a; a <= b -> b - a + 1; ..."""
+    if not (isinstance(e, ast.Compare) and len(e.ops) == 1 and pol in ("true", "false")):
+        return None
+    a, b = _exact(ctx, f, e.left, at), _exact(ctx, f, e.comparators[0], at)
+    if a is None or b is None:
+        return None
+    op = type(e.ops[0])
+    if pol == "false":
+        op = {ast.Lt: ast.GtE, ast.LtE: ast.Gt, ast.Gt: ast.LtE, ast.GtE: ast.Lt}.get(op)  # type: ignore[assignment]
+    if op is ast.Lt:
+        return _lin_add(b, a, -1)
+    if op is ast.LtE:
+        return _lin_add(_lin_add(b, a, -1), {"": 1})
+    if op is ast.Gt:
+        return _lin_add(a, b, -1)
+    if op is ast.GtE:
+        return _lin_add(_lin_add(a, b, -1), {"": 1})
+    return None
+
+
 def r6(ctx: Ctx) -> None:
     ctx.rule("C20.R6", "range reader: reads are clamped to the object, only in-range bytes are requested, a negative seek / "
              "unknown whence raise", 5)
@@ -842,12 +1145,25 @@ def r6(ctx: Ctx) -> None:
                 o = edge_target(g, b, "false" if past else "true")
                 if t is not None and c.id not in reachable_from(g, t, NORMAL) and o is not None and c.id in reachable_from(g, o, NORMAL):
                     ok = True
+            if not ok:
+                # the same guard in another arithmetic shape (`remaining = self._size - self._pos ... if remaining <= 0: return`):
+                # some fact known at the request says  size - pos - k > 0  with k >= 0
+                for pol, fe, fat in facts_at(ctx, m, c):
+                    x = _positive_fact(ctx, m, pol, fe, fat)
+                    if x is not None and {k: v for k, v in x.items() if k != ""} == {"self._size": 1, "self._pos": -1} and x.get("", 0) <= 0:
+                        ok = True
             ctx.ob("C20.R6", m, f"{name}: no request at or past EOF", c, ok, "_get_range is only reachable when pos < size")
             last = c.ast.args[1] if isinstance(c.ast, ast.Call) and len(c.ast.args) > 1 else None
             sl = ctx.slicer(m)
             org = sl.origins(last, c.id)
             txt = " ".join(norm_text(e) for e in org["exprs"])
             ok2 = ("min(" in txt and "_size" in txt and "- 1" in txt) or norm_text(last) == "self._size - 1"
+            if not ok2:
+                # linear form: some upper bound of `last` minus (size - 1) is a constant <= 0
+                for u in _upper_bounds(ctx, m, last, c.id):
+                    dlt = _lin_add(u, {"self._size": 1, "": -1}, -1)
+                    if all(v == 0 for k, v in dlt.items() if k != "") and dlt.get("", 0) <= 0:
+                        ok2 = True
             ctx.ob("C20.R6", m, f"{name}: last requested byte <= size - 1", c, ok2, f"last = {norm_text(last)} <- {txt[:100]}")
     sk = rf.methods.get("seek")
     if sk is None:
